@@ -171,7 +171,7 @@ def main(argv):
               "' S", "a' S b", "5 - YEAR - OLD", "& QUOT ;", "& Amp ;", "Æ' S", "' s\u00a0x", "' s\u2028", "' s\tx", "' s\u3000", "' s\u0085", "' s\u200b", "' s\u00a0", "5 - year - old\u00a0k",
               "5 - year - old", "5 - year - old ", "5 - year - olds", "5 - years - old\t", "''' s ", "````", "& amp ; quot ;", "& amp", "& amp ;;",
               "3{4{{", "ΑΣ ΑΣΑ", "İstanbul", "ǅ", "ﬁﬁ", "Å̧"]
-    for i in range(300 if quick else 5000):
+    for i in range(300 if quick else 20000):
         lines.append(rand_line(rng, toks, rng.choice((1, 2, 3, 4, 6, 9, 14))))
     lines = list(dict.fromkeys(lines))
     icu.need("S", [ord(ch) for l in lines for ch in l])
@@ -215,7 +215,7 @@ def main(argv):
              ["' s", "5 - year - old", "``q''"], ["İ", "ΑΣ", "①"], ["a' S", "5 - YEAR - OLD x", "& QUOT ;"]]
     for f in fixed:
         inputs.append(f)
-    for i in range(12 if quick else 150):
+    for i in range(12 if quick else 400):
         inputs.append([rand_line(rng, toks, rng.choice((0, 1, 2, 3, 5, 8))) for _ in range(rng.choice((1, 2, 3, 4, 5, 7)))])
     truns = []
     for k, ls in enumerate(inputs):
@@ -242,7 +242,7 @@ def main(argv):
     outs = []
     for (fs, code, ls, data), want in zip(truns, expected):
         argv = [tool] + (["-l", code] if code else []) + [a for a, b in zip(("--lower", "--flatten", "--normalize"), fs) if b == "1"]
-        st, so, se = run_tool(argv, stdin=data, timeout=30)
+        st, so, se = run_limited(argv, stdin=data, timeout=30)
         outs.append((st, so))
         nflag = fs.count("1")
         c.count(("P", fs, code, data), nontrivial=len(data) > 1, bucket="tool/flags=%s/%d-lines" % (fs, min(len(ls), 4)))
